@@ -57,7 +57,7 @@ def DC_classes(c, dn):
     return D.classes_for(c.meta, dn, "", "")
 
 
-CFG = DC.Config("C06", D.ALL_KINDS, make_cmds, nsets=(8, 50), big=True, extra_eval=extra_eval, serial=True,
+CFG = DC.Config("C06", D.ALL_KINDS, make_cmds, nsets=(8, 20), big=True, extra_eval=extra_eval, serial=True,
                 rule="all 13 kinds x parameters: the image is loaded through the generic loader and through the kind's own loader with a SECOND "
                      "image appended to the stream (tellg after load must equal the first image's length), random load option 1..3 for "
                      "HASHHF/HASHRPF; numElements, maxLength, every id, members and absent strings, prefix, substring, rank and table scans "
